@@ -25,7 +25,7 @@
 (***************************************************************************)
 EXTENDS Strings, FiniteSetsExt, SequencesExt
 
-Types == {"int", "float", "bool", "str", "null", "date", "datetime"}
+Types == {"int", "float", "bool", "str", "null", "date", "datetime", "duration"}
 
 ErrE(cls) == [k |-> "err", cls |-> cls]
 IsErr(e)  == e.k = "err"
@@ -80,7 +80,9 @@ FnTy(op, ts) ==
             IF n # 2 THEN "ERR" ELSE IF j \in {"int", "float", "str"} THEN j
             ELSE IF j = "bool" THEN "int" ELSE IF j = "null" THEN "AMBIG" ELSE "ERR"
       [] op \in {"sub", "mul"} ->
-            IF n # 2 THEN "ERR" ELSE IF j \in {"int", "float"} THEN j ELSE IF j = "null" THEN "AMBIG" ELSE "ERR"
+            IF n # 2 THEN "ERR" ELSE IF j \in {"int", "float"} THEN j ELSE IF j = "null" THEN "AMBIG"
+            \* the difference of two dates / two datetimes is a duration (no SQL back end here has such a type: NotSupportedError there)
+            ELSE IF op = "sub" /\ ts[1] = ts[2] /\ ts[1] \in {"date", "datetime"} THEN "duration" ELSE "ERR"
       [] op = "truediv" -> IF n = 2 /\ j \in {"int", "float"} THEN "float" ELSE IF j = "null" THEN "AMBIG" ELSE "ERR"
       [] op \in {"floordiv", "mod"} -> IF n = 2 /\ j = "int" THEN "int" ELSE IF j = "null" THEN "int" ELSE "ERR"
       [] op \in {"neg", "pos", "abs"} -> IF n = 1 /\ j \in {"int", "float"} THEN j ELSE IF j = "null" THEN "AMBIG" ELSE "ERR"
@@ -267,7 +269,10 @@ ApplyFn(e, vs) ==          \* e: elaborated fn node, vs: argument values (alread
                        ELSE IF at = "bool" THEN Strict2(vs[1], vs[2], (IF vs[1] = TRUE THEN 1 ELSE 0) + (IF vs[2] = TRUE THEN 1 ELSE 0))
                        ELSE IF at = "str" THEN Strict2(vs[1], vs[2], vs[1] \o vs[2])
                        ELSE AddV(vs[1], vs[2])
-      [] op = "sub" -> IF at = "float" THEN RatSubV(pv[1], pv[2]) ELSE SubV(vs[1], vs[2])
+      [] op = "sub" -> IF at = "float" THEN RatSubV(pv[1], pv[2])
+                       ELSE IF at = "date" THEN Strict2(vs[1], vs[2], DateDiff(vs[1], vs[2]))
+                       ELSE IF at = "datetime" THEN Strict2(vs[1], vs[2], DatetimeDiff(vs[1], vs[2]))
+                       ELSE SubV(vs[1], vs[2])
       [] op = "mul" -> IF at = "float" THEN RatMulV(pv[1], pv[2]) ELSE MulV(vs[1], vs[2])
       [] op = "truediv" -> IF at = "float" THEN RatDivV(pv[1], pv[2]) ELSE TrueDivV(vs[1], vs[2])
       [] op = "floordiv" -> FloorDivV(vs[1], vs[2])
